@@ -182,3 +182,9 @@ Proof.
   intro F. pose proof (gen_tw_sorted_is_conv bs ls sr H F) as G. rewrite (gen_tw_sorted_eq bs ls sr H) in G. exact G.
 Qed.
 Print Assumptions C20_translated_windows_sorted_is_model.
+
+(* not_none_indices (list of optional channel ids abstracted to option Z): the translated loop is the model *)
+Theorem C20_translated_not_none_indices_is_model : forall l : list (option Z),
+  gen_not_none_indices l = Ret (not_none_indices l).
+Proof. exact gen_not_none_indices_eq. Qed.
+Print Assumptions C20_translated_not_none_indices_is_model.
